@@ -16,7 +16,8 @@ EXTENDS Stream, StreamUniverse, Json, IOUtils
 K     == atoi(IOEnv.K)
 PART  == atoi(IOEnv.PART)        \* 1..PARTS
 PARTS == atoi(IOEnv.PARTS)
-U == IF IOEnv.UNIVERSE = "core" THEN Core ELSE IF IOEnv.UNIVERSE = "corewrap" THEN Core \o Wrappers ELSE Full
+U == IF IOEnv.UNIVERSE = "core" THEN Core ELSE IF IOEnv.UNIVERSE = "corewrap" THEN Core \o Wrappers
+     ELSE IF IOEnv.UNIVERSE = "nul" THEN Nul ELSE Full
 N == Len(U)
 
 RECURSIVE Pow(_, _)
@@ -26,7 +27,7 @@ ItemSeq(i) == [j \in 1..K |-> U[(((i - 1) \div Pow(N, j - 1)) % N) + 1]]
 
 RECURSIVE Writes(_, _, _)
 Writes(st, q, acc) == IF q = <<>> THEN [s |-> st, hs |-> acc]
-                      ELSE LET r == WriteStep(st, Head(q)) IN Writes(r.s, Tail(q), Append(acc, r.last))
+                      ELSE LET r == WriteStep(st, Head(q), EncLen(Head(q))) IN Writes(r.s, Tail(q), Append(acc, r.last))
 
 ViaFor(it, mode) == IF it.t \in ArrTags THEN (IF mode = "a" THEN "vec" ELSE "view")
                     ELSE IF it.t = "raw" THEN (IF mode = "a" THEN "read" ELSE "view")
